@@ -70,7 +70,7 @@ def _job(args):
     out = []
     for r in res:
         r.engine = spec.engine if r.engine == "E2" else r.engine
-        if r.kind == "proof" and spec.kind != "proof":
+        if r.kind == "proof" and spec.kind not in ("proof", "custom"):
             r.kind = spec.kind
         d = r.asdict()
         d["job_wall_s"] = round(time.time() - t0, 3)
